@@ -45,17 +45,18 @@ func verifyAll(g *Gen, sel func(*Contract) bool, want func(*Oblig) bool, cfg Sol
 	}
 	sessions := make([]*Session, len(cs))
 	// generation is sequential (shared Gen state), solving parallel
+	tg := time.Now()
 	for i, c := range cs {
 		sessions[i] = g.Verify(c)
 	}
+	if os.Getenv("VERIF_DEBUG") != "" {
+		fmt.Fprintf(os.Stderr, "generation: %.1fs\n", time.Since(tg).Seconds())
+	}
 	var wg sync.WaitGroup
-	sem := make(chan struct{}, 14)
 	for _, s := range sessions {
 		wg.Add(1)
 		go func(s *Session) {
 			defer wg.Done()
-			sem <- struct{}{}
-			defer func() { <-sem }()
 			Discharge(s, want, cfg)
 		}(s)
 	}
